@@ -55,8 +55,12 @@ func c11Conf(m int) ref.ExtConf {
 var c11Locals = []struct{ raw, unq string }{
 	{"user", ""}, {"first.last", ""}, {"a+b", ""}, {"u_v-w", ""}, {"!#$%&'*+-/=?^_`{|}~", ""}, {"x", ""}, {"UPPER.lower", ""},
 	{`"a b"`, "a b"}, {`"a\"b"`, `a"b`}, {`"a@b"`, "a@b"}, {`"with>angle"`, "with>angle"}, {`"a\\b"`, `a\b`},
+	// long local-parts (64, 65 octets, a 78-octet VERP return path, 200 octets): well-formed paths
+	// whatever their length, handed over as sent or refused - never cut
+	{strings.Repeat("l", 64), ""}, {strings.Repeat("m", 65), ""}, {"bounce-list-" + strings.Repeat("0123456789", 6) + "=user=x.test", ""}, {strings.Repeat("long.", 39) + "local", ""},
 }
-var c11Domains = []string{"example.org", "a.b-c.d", "[127.0.0.1]", "[IPv6:::1]", "x", "EXAMPLE.Com", "xn--bcher-kva.example"}
+var c11Domains = []string{"example.org", "a.b-c.d", "[127.0.0.1]", "[IPv6:::1]", "x", "EXAMPLE.Com", "xn--bcher-kva.example",
+	strings.Repeat(strings.Repeat("d", 60)+".", 4) + "example.org", strings.Repeat(strings.Repeat("e", 63)+".", 4) + "test"}
 
 func mixCase(r *core.Rand, s string) string {
 	switch r.Intn(3) {
